@@ -133,7 +133,7 @@ PROPS = {
     ),
     'C20': dict(
         title='logging: each committed entry written once, intact, in order; pages returned',
-        quick=[sq('sq_log', ['--depth', '7'], budget=150), mc('mc_log', '0-4', 'sc', P=2, E=0, budget=150), mc('mc_log', '5', 'sc', P=1, E=0, budget=100)],
+        quick=[sq('sq_log', ['--depth', '7'], budget=150), mc('mc_log', '0-4,6,7', 'sc', P=2, E=0, budget=150), mc('mc_log', '5', 'sc', P=1, E=0, budget=100)],
         thorough=[sq('sq_log', ['--depth', '10'], budget=900), mc('mc_log', 'all', 'sc', P=3, E=0, budget=1800), mc('mc_log', '0-4', 'tso', P=2, D=1, E=0, budget=600)],
         oracle='scatter list rebuilt from the size alone = bytes streamed, every backing page (data and page-table pages) listed exactly once, allocator balance zero after discard / after the writer thread wrote; captured writev() bytes per (fake) descriptor = interleaving of whole entries, each once, per thread in program order; nothing pending after close(); rotated descriptor closed once',
         assumptions=['page sizes 64/128/256 (page tables of 7/15/31 pointers); writev never returns short (the property does not quantify over short writes)'],
